@@ -94,7 +94,7 @@ func verify(argv []string) int {
 	if v := os.Getenv("VERIF_TIER"); v != "" && *tier == "" {
 		*tier = v
 	}
-	timeout := 20
+	timeout := 40 // seconds per obligation (the slowest claimed obligation takes about 10 s here)
 	if *tier == "thorough" {
 		timeout = 120
 	}
